@@ -46,7 +46,7 @@ def trees(tier):
     return out
 
 
-def one_exec(tree, kind, path, link, with_state, single=None):
+def one_exec(tree, kind, path, link, with_state, single=None, pre=False):
     from dvc_data.hashfile import load
     from dvc_data.hashfile.build import build
     from dvc_data.hashfile.checkout import checkout
@@ -91,6 +91,18 @@ def one_exec(tree, kind, path, link, with_state, single=None):
                     if fnames:
                         last = os.path.join(root, sorted(fnames)[-1])
                         hash_file(last, LFS, "md5", state=state)
+            if pre and single is None:
+                # an earlier staging of the same workspace against the same store that was never transferred,
+                # after which the user moves the first file aside and writes new bytes at its old path
+                build(odb, src, LFS, "md5")
+                first = sorted(files)[0]
+                moved = "moved-aside"
+                os.replace(os.path.join(src, *first.split("/")), os.path.join(src, moved))
+                files[moved] = files[first]
+                files[first] = b"rewritten after the first staging"
+                write_tree(src, {first: files[first]})
+                want = dict(files)
+                want_listing = {rel: ref.md5(b) for rel, b in files.items()}
             out = w.p("out", "target")
             os.makedirs(w.p("out"))
             if path in ("object", "lazy") or single is not None and path != "index":
@@ -151,6 +163,22 @@ def one_exec(tree, kind, path, link, with_state, single=None):
                                 viol.append(("saved-subdir-identifier-differs", f"{k}: {e.hash_info.value}"))
                             if e.meta.nfiles != len(sub):
                                 viol.append(("reported-count-or-size-wrong", f"{k}: nfiles={e.meta.nfiles} want {len(sub)}"))
+            # the store still serves the same data: a second round trip from it into another location
+            out2 = w.p("out", "again")
+            try:
+                if path == "object" or (single is not None and path != "index"):
+                    checkout(out2, LFS, load(odb, obj.hash_info), odb, force=False, state=state)
+                elif path == "lazy":
+                    idx2 = DataIndex({(): DataIndexEntry(key=(), meta=Meta(isdir=True),
+                                                         hash_info=HashInfo("md5", obj.oid))})
+                    idx2.storage_map.add_cache(ObjectStorage((), odb))
+                    apply(compare(None, idx2), out2, LFS, storage="cache", state=state)
+                else:
+                    apply(compare(None, idx), out2, LFS, storage="cache", state=state)
+                if walk_files(out2) != want:
+                    viol.append((f"second-round-trip-differs/{path}", f"{sorted(walk_files(out2))} vs {sorted(want)}"))
+            except Exception as e:  # noqa: BLE001
+                viol.append((f"second-round-trip-raises-{type(e).__name__}/{path}", repr(e)))
             got = walk_files(out)
             if got != want:
                 lost = sorted(set(want) - set(got))
@@ -174,9 +202,9 @@ def one_exec(tree, kind, path, link, with_state, single=None):
     return viol
 
 
-def safe_exec(tree, kind, path, link, ws, single):
+def safe_exec(tree, kind, path, link, ws, single, pre=False):
     try:
-        return one_exec(tree, kind, path, link, ws, single)
+        return one_exec(tree, kind, path, link, ws, single, pre)
     except Exception as e:  # noqa: BLE001
         import traceback
 
@@ -185,7 +213,7 @@ def safe_exec(tree, kind, path, link, ws, single):
 
 def run_case(case):
     res = {"n": 0, "trans": 0, "states": [], "outcomes": set(), "nontrivial": set(), "viol": [],
-           "vac": {"duplicate_content_trees": 0, "nested_trees": 0, "linked_checkouts": 0}}
+           "vac": {"duplicate_content_trees": 0, "nested_trees": 0, "linked_checkouts": 0, "restaged_runs": 0}}
     sigs = set()
     tree, single = case.get("tree"), case.get("single")
     for kind in ("local", "base"):
@@ -193,10 +221,13 @@ def run_case(case):
             if single is not None and path == "lazy":
                 continue
             for link in LINKS:
-                for ws in (False, True):
-                    viol = safe_exec(tree, kind, path, link, ws, single)
+                for ws, pre in ((False, False), (True, False), (False, True), (True, True)):
+                    if pre and (single is not None or link != "copy"):
+                        continue
+                    viol = safe_exec(tree, kind, path, link, ws, single, pre)
                     res["n"] += 1
-                    res["trans"] += 3
+                    res["trans"] += 4 + pre
+                    res["vac"]["restaged_runs"] += pre
                     res["outcomes"].add(repr(sorted(v[0] for v in viol)))
                     if link in ("hardlink", "symlink"):
                         res["vac"]["linked_checkouts"] += 1
@@ -204,7 +235,7 @@ def run_case(case):
                         if sig not in sigs:
                             sigs.add(sig)
                             res["viol"].append((sig, detail, {"tree": tree, "single": single, "kind": kind,
-                                                              "path": path, "link": link, "state": ws}))
+                                                              "path": path, "link": link, "state": ws, "pre": pre}))
     d = digest_obj((tree, single))
     res["states"].append(d)
     if tree and len(tree) >= 2:
@@ -221,7 +252,8 @@ def run_case(case):
 
 
 def replay(case):
-    return safe_exec(case["tree"], case["kind"], case["path"], case["link"], case["state"], case["single"])
+    return safe_exec(case["tree"], case["kind"], case["path"], case["link"], case["state"], case["single"],
+                     case.get("pre", False))
 
 
 def run(ctx):
@@ -231,7 +263,10 @@ def run(ctx):
         "contents {empty, x, CRLF text, binary} + hand-picked trees (space / '.dir' / non-ASCII names, "
         "duplicates, all-empty, 5 files) and 6 single files, each x {LocalHashFileDB, HashFileDB} x "
         "{object-level checkout, index build/md5/save/compare/apply, lazily loaded directory entry} x link "
-        "type {copy, hardlink, symlink, default} x state on/off; source trees also hold empty directories; "
+        "type {copy, hardlink, symlink, default} x state on/off; every execution is followed by a second round "
+        "trip from the same store into another location; with link type copy also after an earlier, never "
+        "transferred staging of the workspace whose first file was then moved aside and rewritten; source "
+        "trees also hold empty directories; "
         "non-trivial = tree of >= 2 files"
     )
     ctx.bound = {"trees": len(ts), "paths": U, "links": LINKS, "round_trip_paths": PATHS}
@@ -240,7 +275,7 @@ def run(ctx):
         "reflink is unsupported on this kernel's tmpfs: the default link type exercises the reflink attempt "
         "and its copy fallback, not a successful clone",
     ]
-    ctx.require("duplicate_content_trees", "nested_trees", "linked_checkouts")
+    ctx.require("duplicate_content_trees", "nested_trees", "linked_checkouts", "restaged_runs")
     cs = [{"tree": t, "i": i} for i, t in enumerate(ts)]
     cs += [{"single": c} for c in ("e", "x", "crlf", "lf", "bin", "w")]
     ctx.run_cases("run_case", cs, chunksize=2, det=4)
